@@ -86,6 +86,14 @@ Definition rev_str (s : string) : string := rev_str_acc s EmptyString.
 
 Definition ends_with (p s : string) : bool := starts_with (rev_str p) (rev_str s).
 
+(* `p in s` for strings *)
+Fixpoint str_contains (p s : string) : bool :=
+  if starts_with p s then true
+  else match s with
+       | EmptyString => false
+       | String _ r => str_contains p r
+       end.
+
 (* Python str.isspace() restricted to ASCII *)
 Definition is_space_py (c : ascii) : bool :=
   let n := nat_of_ascii c in
